@@ -815,7 +815,10 @@ func c12SE(rr *rand.Rand, depth int, wantVec bool) seNode {
 		e := c12SE(rr, depth-1, false)
 		return seNode{text: "vector(" + e.text + ")", json: map[string]any{"k": "vector", "e": e.json}, isVec: true, closed: e.closed}
 	}
-	switch rr.Intn(7) {
+	switch rr.Intn(8) {
+	case 7:
+		l, r2 := c12SE(rr, depth-1, true), c12SE(rr, depth-1, true)
+		return seNode{text: "(" + l.text + " unless on() " + r2.text + ")", json: map[string]any{"k": "unlessOn", "l": l.json, "r": r2.json}, isVec: true, closed: l.closed && r2.closed}
 	case 0:
 		e := c12SE(rr, depth-1, true)
 		return seNode{text: "-(" + e.text + ")", json: map[string]any{"k": "neg", "e": e.json}, isVec: true, closed: e.closed}
@@ -872,7 +875,7 @@ func c12Static(r *hx.Run) {
 	}
 	b, _ := json.Marshal(e.json)
 	r.Count(fmt.Sprintf("static:dead=%v", s0.IsDead))
-	r.Op("lfstatic\t"+string(b), fmt.Sprintf("%v %v %s %v", s0.AlwaysReturns, s0.KnownReturn, num, s0.IsDead))
+	r.Op("lfstatic\t"+string(b), fmt.Sprintf("%v %v %s %v %v", s0.AlwaysReturns, s0.KnownReturn, num, s0.IsDead, s0.IsConditional))
 	if !e.closed {
 		return
 	}
@@ -890,6 +893,10 @@ func c12Static(r *hx.Run) {
 	// the property on this fragment, observed: a static verdict means the query returns nothing (known: bool)
 	if s0.IsDead && len(ls) > 0 {
 		class := "dead-operand-contributes:static-comparison" + lfBool("static-comparison", e.text)
+		if strings.Contains(e.text, " unless on() ") && !strings.Contains(class, "constant-through-vector-matching") {
+			// AlwaysReturns (and known numbers) survive vector-vector operations: the recorded unless / join finding
+			class += ":constant-through-vector-matching"
+		}
 		if strings.Contains(e.text, "count(") && !strings.Contains(class, "value-changing-aggregation-in-query") {
 			class += ":value-changing-aggregation-in-query"
 		}
